@@ -60,6 +60,9 @@ structure Conf where
   docRoot : Bytes := []
   serverTag : Bytes := []
   extra : List (Bytes × Bytes) := []     -- response headers configured for the matching scope
+  serverName : Option Bytes := none      -- server.name
+  allowHttp11 : Bool := true             -- server.protocol-http11
+  maxRequestSize : Nat := 0              -- server.max-request-size (kB; 0 = unlimited)
   other : Nat := 0
 deriving Repr, DecidableEq
 
@@ -81,6 +84,13 @@ abbrev HId := Nat
     (id, key, value) in insertion order -/
 abbrev HList := List (HId × Bytes × Bytes)
 
+/-- where r->cond_match[i] points -/
+inductive CmRef
+  | null            -- NULL (never matched)
+  | own             -- r->cond_match_data + i
+  | h2r             -- the connection request's data (copied by h2_init_stream)
+deriving Repr, DecidableEq
+
 /-- fields that request_reset() and request_reset_ex() both leave alone: the condition cache and
     its validity bits (reset in response.c / on accept), server_name_buf ("reset when used"),
     physical.doc_root / basedir (cleared only while physical.path is allocated; rewritten by
@@ -98,6 +108,13 @@ structure ReqStale where
   errorHandlerSavedMethod : Int := 0    -- (not valid unless errorHandlerSavedStatus is set)
   physPathPtr : Bool := false           -- r->physical.path.ptr != NULL
   physPathBig : Bool := false           -- r->physical.path.size > BUFFER_MAX_REUSE_SIZE
+  x0 : Int := 0                         -- r->x viewed as x.h1: bytes_written_ckpt  (h2: state, id)
+  x1 : Int := 0                         --                     bytes_read_ckpt     (h2: rwin, swin)
+                                        -- zeroed by request_reset(), then set again by its h1 / h2 caller:
+                                        -- accounting carried from request to request, not response state
+  condMatch : List CmRef := []          -- r->cond_match[i]: regex captures of config conditions
+  dstOwn : Bool := true                 -- r->dst_addr / dst_addr_buf point at the connection's (mod_extforward
+                                        -- redirects them and must restore them in its reset hook)
 deriving Repr, DecidableEq
 
 /-- fields request_reset() keeps (for mod_status) until request_reset_ex() clears them -/
@@ -114,9 +131,7 @@ deriving Repr, DecidableEq
 /-- fields request_reset() restores to their initial value -/
 structure ReqLive where
   httpStatus : Int := 0
-  x0 : Int := 0                         -- r->x viewed as x.h1: bytes_written_ckpt
-  x1 : Int := 0                         --                     bytes_read_ckpt
-  x2 : Int := 0                         --                     te_chunked
+  x2 : Int := 0                         -- r->x viewed as x.h1: te_chunked (h2: rwin_fudge, prio)
   method : Int := -1                    -- HTTP_METHOD_UNSET
   version : Int := -1                   -- HTTP_VERSION_UNSET
   handlerModule : Bool := false         -- r->handler_module != NULL
@@ -168,12 +183,15 @@ def ReqSt.onLive (s : ReqSt) (f : ReqLive → ReqLive) : ReqSt := s.onCore (·.o
 structure SrvEnv where
   nPlugins : Nat := 2                   -- srv->plugins.used
   nContexts : Nat := 4                  -- srv->config_context->used
+  nCaptures : Nat := 2                  -- srv->config_captures
+  resetHooks : List Nat := [1, 2]       -- plugin ids whose handle_request_reset hook clears r->plugin_ctx[id]
   defaults : Conf := {}                 -- request_config_defaults
 deriving Repr, DecidableEq
 
 /-- request_init_data() on a zeroed object -/
 def ReqSt.init (e : SrvEnv) : ReqSt :=
   { condCache := List.replicate e.nContexts {},
+    condMatch := List.replicate e.nCaptures .null,
     conf := e.defaults }
 
 /-! ### id sets (bit fields rqst_htags / resp_htags) -/
@@ -248,6 +266,13 @@ def rqstSet (s : ReqLive) (id : HId) (k v : Bytes) : ReqLive :=
                         else bset s.rqstHtags id,
            rqstHeaders := hupdate s.rqstHeaders id k (fun _ => v) }
 
+/-- http_header_request_unset() -/
+def rqstUnset (s : ReqLive) (id : HId) (k : Bytes) : ReqLive :=
+  if btst s.rqstHtags id then
+    { s with rqstHtags := if id > 0 then bclr s.rqstHtags id else s.rqstHtags,
+             rqstHeaders := hupdate s.rqstHeaders id k (fun _ => []) }
+  else s
+
 /-- http_header_request_get() -/
 def rqstGet (s : ReqLive) (id : HId) (k : Bytes) : Option Bytes :=
   if btst s.rqstHtags id then
@@ -295,9 +320,11 @@ def responseReset (h : HdrIds) (s : ReqSt) : ReqSt :=
                     respHeaders := hreset s.respHeaders }
   s.onLive (bodyClear h · false)
 
-/-- plugins_call_handle_request_reset(): every module that keeps per-request state in
-    r->plugin_ctx[id] clears its slot in its handle_request_reset hook -/
-def pluginsReset (s : ReqLive) : ReqLive := { s with pluginCtx := [] }
+/-- plugins_call_handle_request_reset(): request_reset() itself does not touch r->plugin_ctx[];
+    a slot is cleared only if its module registered a handle_request_reset hook that does so
+    (`hooks`; which modules do is an obligation checked from the source, Extracted/ReqConst.lean) -/
+def pluginsReset (hooks : List Nat) (s : ReqLive) : ReqLive :=
+  { s with pluginCtx := s.pluginCtx.filter fun p => !hooks.contains p.1 }
 
 def pctxGet (s : ReqLive) (i : Nat) : Option PCtx :=
   match s.pluginCtx.find? (·.1 = i) with
@@ -309,7 +336,7 @@ def pctxSet (s : ReqLive) (i : Nat) (c : PCtx) : ReqLive :=
 
 /-- request_reset() -/
 def requestReset (h : HdrIds) (e : SrvEnv) (s : ReqSt) : ReqSt :=
-  let s := s.onLive pluginsReset
+  let s := s.onLive (pluginsReset e.resetHooks)
   let s := responseReset h s
   { s with
     loopsPerRequest := 0, keepAlive := 0,
@@ -334,7 +361,7 @@ def requestResetEx (s : ReqSt) : ReqSt :=
 def requestRelease (h : HdrIds) (e : SrvEnv) (s : ReqSt) : ReqSt :=
   let s := { s with readQueue := s.readQueue.reset }
   let s := requestResetEx (requestReset h e s)
-  { s with state := 0 }
+  { s with state := 0, dstOwn := true }              -- request_acquire(): request_set_con()
 
 /-- h2_init_stream(): the (recycled) stream request inherits the configuration state of the
     connection request `h2r` -/
@@ -342,6 +369,7 @@ def h2InitStream (h2r : ReqSt) (swin : Nat) (s : ReqSt) : ReqSt :=
   { s with x1 := 65536 + (swin : Int) * 4294967296, x2 := 7 * 65536,
            version := 2,
            conValid := h2r.conValid, condCache := h2r.condCache,
+           condMatch := h2r.condMatch.map (fun m => match m with | .null => .null | _ => .h2r),
            serverName := match h2r.serverName with
                          | .authority => .h2r 0
                          | .nameBuf => .h2r 1
